@@ -910,3 +910,92 @@ Proof.
   cbv zeta. unfold run_stream. apply run_lockstep.
   unfold readeq, reader_new, rdeq. cbn [rbw rrd rbom rest sched delivered]. auto.
 Qed.
+
+(* ---------- the other operations of the reader: read_bytes, skip_container, skip_unquoted_value ---------- *)
+Definition oreq {A} (R : A -> A -> Prop) (o1 o2 : outcome A) : Prop :=
+  match o1, o2 with
+  | Ok a, Ok b => R a b
+  | Err e1, Err e2 => e1 = e2
+  | Panic s1, Panic s2 => s1 = s2
+  | OOB s1, OOB s2 => s1 = s2
+  | OutOfFuel, OutOfFuel => True
+  | _, _ => False
+  end.
+
+Lemma readeq_mk b d1 d2 bom : rdeq d1 d2 -> readeq (mkreader b d1 bom) (mkreader b d2 bom).
+Proof. intros H. unfold readeq. cbn [rbw rrd rbom]. auto. Qed.
+
+Theorem read_bytes_eq : forall fuel b d1 d2 bom n, rdeq d1 d2 ->
+  read_bytes fuel (mkreader b d1 bom) n = Err E_Io \/
+  oreq (fun x y => fst x = fst y /\ readeq (snd x) (snd y))
+       (read_bytes fuel (mkreader b d1 bom) n) (read_bytes fuel (mkreader b d2 bom) n).
+Proof.
+  induction fuel as [|f IH]; intros b d1 d2 bom n Heq; [right; exact I|].
+  cbn [read_bytes rbw rrd rbom]. destruct (Nat.ltb (length (win b)) n).
+  - pose proof (fill_eq b d1 d2 Heq) as Hf.
+    destruct (bw_fill_buf b d1) as [k b2 d1'|b2 d1'|b2 d1'].
+    + destruct Hf as (d2' & -> & Heq'). destruct k as [|k]; [right; reflexivity|]. apply IH. exact Heq'.
+    + left. reflexivity.
+    + destruct Hf as (d2' & -> & Heq'). right. reflexivity.
+  - right. destruct (bw_advance b n); cbn [oreq]; auto. cbn [fst snd]. split; [reflexivity|].
+    unfold with_bw. cbn [rrd rbom]. apply readeq_mk. exact Heq.
+Qed.
+
+Theorem skip_container_loop_eq : forall fuel b d1 d2 bom ptr st depth, rdeq d1 d2 ->
+  skip_container_loop fuel (mkreader b d1 bom) ptr st depth = Err E_Io \/
+  oreq readeq (skip_container_loop fuel (mkreader b d1 bom) ptr st depth)
+              (skip_container_loop fuel (mkreader b d2 bom) ptr st depth).
+Proof.
+  induction fuel as [|f IH]; intros b d1 d2 bom ptr st depth Heq; [right; exact I|].
+  cbn [skip_container_loop rbw rrd rbom].
+  destruct (sk_scan _ _ _ _ _) as [adv|p st' d'|s].
+  - right. destruct (bw_advance b adv); cbn [oreq]; auto. unfold with_bw. cbn [rrd rbom]. apply readeq_mk. exact Heq.
+  - destruct (bw_advance b p) as [b0| | | |]; try (right; reflexivity).
+    pose proof (fill_eq b0 d1 d2 Heq) as Hf.
+    destruct (bw_fill_buf b0 d1) as [k b2 d1'|b2 d1'|b2 d1'].
+    + destruct Hf as (d2' & -> & Heq'). destruct k as [|k]; [right; reflexivity|]. apply IH. exact Heq'.
+    + left. reflexivity.
+    + destruct Hf as (d2' & -> & Heq'). right. reflexivity.
+  - right. reflexivity.
+Qed.
+
+Theorem skip_unquoted_value_loop_eq : forall fuel b d1 d2 bom ic, rdeq d1 d2 ->
+  skip_unquoted_value_loop fuel (mkreader b d1 bom) ic = Err E_Io \/
+  oreq readeq (skip_unquoted_value_loop fuel (mkreader b d1 bom) ic)
+              (skip_unquoted_value_loop fuel (mkreader b d2 bom) ic).
+Proof.
+  induction fuel as [|f IH]; intros b d1 d2 bom ic Heq; [right; exact I|].
+  cbn [skip_unquoted_value_loop rbw rrd rbom].
+  destruct (suv_scan _ _ _) as [[[[|] i]|]|ic'].
+  - destruct (bw_advance b (S i)) as [b0| | | |]; try (right; reflexivity).
+    unfold with_bw, skip_container. cbn [rrd rbom]. apply skip_container_loop_eq. exact Heq.
+  - right. destruct (bw_advance b i); cbn [oreq]; auto. unfold with_bw. cbn [rrd rbom]. apply readeq_mk. exact Heq.
+  - right. cbn [oreq]. apply readeq_mk. exact Heq.
+  - destruct (bw_advance b (length (win b))) as [b0| | | |]; try (right; reflexivity).
+    pose proof (fill_eq b0 d1 d2 Heq) as Hf.
+    destruct (bw_fill_buf b0 d1) as [k b2 d1'|b2 d1'|b2 d1'].
+    + destruct Hf as (d2' & -> & Heq'). destruct k as [|k]; [right; cbn [oreq]; apply readeq_mk; exact Heq'|]. apply IH. exact Heq'.
+    + left. reflexivity.
+    + destruct Hf as (d2' & -> & Heq'). right. reflexivity.
+Qed.
+
+(* packaged on readers *)
+Corollary read_bytes_fault fuel r1 r2 n : readeq r1 r2 ->
+  read_bytes fuel r1 n = Err E_Io \/
+  oreq (fun x y => fst x = fst y /\ readeq (snd x) (snd y)) (read_bytes fuel r1 n) (read_bytes fuel r2 n).
+Proof.
+  destruct r1 as [b d1 bom], r2 as [b' d2 bom']. intros (Hb & Hbom & Hd). cbn [rbw rbom rrd] in *. subst.
+  apply read_bytes_eq. exact Hd.
+Qed.
+Corollary skip_container_fault fuel r1 r2 : readeq r1 r2 ->
+  skip_container fuel r1 = Err E_Io \/ oreq readeq (skip_container fuel r1) (skip_container fuel r2).
+Proof.
+  destruct r1 as [b d1 bom], r2 as [b' d2 bom']. intros (Hb & Hbom & Hd). cbn [rbw rbom rrd] in *. subst.
+  apply skip_container_loop_eq. exact Hd.
+Qed.
+Corollary skip_unquoted_value_fault fuel r1 r2 : readeq r1 r2 ->
+  skip_unquoted_value fuel r1 = Err E_Io \/ oreq readeq (skip_unquoted_value fuel r1) (skip_unquoted_value fuel r2).
+Proof.
+  destruct r1 as [b d1 bom], r2 as [b' d2 bom']. intros (Hb & Hbom & Hd). cbn [rbw rbom rrd] in *. subst.
+  apply skip_unquoted_value_loop_eq. exact Hd.
+Qed.
